@@ -42,6 +42,11 @@ func genC16(t *rapid.T) kit.History {
 		if rapid.IntRange(0, 3).Draw(t, l+"_dep") == 0 {
 			return kit.GenEntOpM(t, l, "deps", c16DepUniverse, m)
 		}
+		if rapid.IntRange(0, 9).Draw(t, l+"_deleteWhere") == 0 {
+			// a bulk delete by filter over a population that may mix system and ordinary entities
+			return kit.Op{Kind: "deletewhere", Field: kit.FNote, Store: []string{"things", "things", "kidsys"}[rapid.IntRange(0, 2).Draw(t, l+"_dwStore")],
+				Spec: &kit.EntSpec{Note: c16Universe.Notes[rapid.IntRange(0, len(c16Universe.Notes)-1).Draw(t, l+"_dwNote")]}}
+		}
 		if rapid.IntRange(0, 3).Draw(t, l+"_viaChild") == 0 {
 			u := c16Universe
 			u.Extras = []string{"", "x"}
